@@ -7,6 +7,7 @@ import (
 	"go/token"
 	"go/types"
 	"math/big"
+	"os"
 	"sort"
 	"strings"
 
@@ -32,6 +33,7 @@ type Oblig struct {
 	Bounded bool  `json:"bounded,omitempty"`
 	Opaque []string `json:"opaque,omitempty"`
 	NoAssumed bool `json:"-"` // query variant without the "asserted, then assumed" context lines (replay search)
+	RetID int `json:"-"` // created while processing the RetID-th return (sees that return's local context)
 }
 
 type pathElem struct {
@@ -84,6 +86,9 @@ type frame struct {
 	assignPos map[token.Pos]bool
 	callPosOrd map[token.Pos]int
 	defPosOrd  map[token.Pos]int
+	namedAll   map[string][]namedDef
+	namedAddr  map[string][]namedDef // addressable source variables: name -> address values
+	curBlock   *ssa.BasicBlock
 }
 
 type deferred struct {
@@ -135,10 +140,13 @@ type Gen struct {
 	nret int
 	replay *replayInfo
 	assumedIdx []int
+	inRet      int      // ordinal of the return being processed (0 outside)
+	retLocal   [][3]int // [from, to, ret]: context lines that only matter to the obligations of that return
 	firedAnchors map[string]bool
 	ncallFresh int
 	globalAx []string
 	privObjs [][]target
+	lastPrecise map[string][]string
 }
 
 func newGen(w *World, fn *ssa.Function, c *Contract) *Gen {
@@ -216,7 +224,7 @@ func (g *Gen) ob(kind, label, prop, desc string) *Oblig {
 	} else if g.kinds[base] > 1 {
 		name = fmt.Sprintf("%s@%d", base, g.kinds[base])
 	}
-	o := &Oblig{Name: g.fnName + "/" + name, Kind: kind, Fn: g.fnName, Guard: g.curR, Prop: prop, Ctx: len(g.defs), Desc: desc, gen: g}
+	o := &Oblig{Name: g.fnName + "/" + name, Kind: kind, Fn: g.fnName, Guard: g.curR, Prop: prop, Ctx: len(g.defs), Desc: desc, gen: g, RetID: g.inRet}
 	if g.topC != nil {
 		o.Opaque = g.topC.Opaque
 	}
@@ -798,6 +806,8 @@ func (g *Gen) stringConst(s string) string {
 		g.decls = append(g.decls, fmt.Sprintf("(declare-const %s Slice)", name))
 		base := 500000000 + id
 		g.assumeGlobal(fmt.Sprintf("(= %s (mk-slice %d %s %s %s))", name, base, g.idx(0), g.idx(int64(len(s))), g.idx(int64(len(s)))))
+		// distinct string constants have distinct contents (ids are per distinct literal text)
+		g.assumeGlobal(fmt.Sprintf("(= %s (- %d))", g.mapKey(name, types.NewMap(types.Typ[types.String], types.Typ[types.Bool])), id))
 		// content for short strings
 		if len(s) <= 16 {
 			c, _ := g.memComp(types.Typ[types.Uint8])
@@ -834,6 +844,25 @@ func (g *Gen) addIdx(a, b string) string {
 	}
 	return fmt.Sprintf("(+ %s %s)", a, b)
 }
+// position of element i of a slice with offset off inside its backing array. Written with the
+// function ix, axiomatised as off + i: the element terms (select row (ix off i)) then are patterns
+// free of arithmetic, which E-matching handles reliably (with a bare (+ off i) inside the pattern the
+// same goals took from 0.1 s to more than 20 s depending on the random seed).
+func (g *Gen) elemIdx(off, i string) string {
+	// bit-vector mode keeps bvadd: there the detour costs time (measured on C18: 16 s instead of 4 s
+	// on the slowest goals) and index terms are not re-associated by the rewriter in the first place
+	if g.bv || os.Getenv("GOVC_NOIX") != "" {
+		return g.addIdx(off, i)
+	}
+	if !g.funDecl["ix"] {
+		g.funDecl["ix"] = true
+		so := g.idxSort()
+		g.prel = append(g.prel, fmt.Sprintf("(declare-fun ix (%s %s) %s)", so, so, so))
+		g.prel = append(g.prel, fmt.Sprintf("(assert (forall ((o %s) (i %s)) (! (= (ix o i) %s) :pattern ((ix o i)))))", so, so, g.addIdx("o", "i")))
+	}
+	return fmt.Sprintf("(ix %s %s)", off, i)
+}
+
 func (g *Gen) subIdx(a, b string) string {
 	if g.bv {
 		return fmt.Sprintf("(bvsub %s %s)", a, b)
@@ -911,8 +940,11 @@ func (g *Gen) binop(x *ssa.BinOp) string {
 
 func (g *Gen) eqTerm(a, b string, t types.Type) string {
 	if isString(t) {
-		// string equality: same length and same content. Approximated: equal Slice value OR uninterpreted content equality
-		return fmt.Sprintf("(streq %s %s %s %s)", a, b, g.strMem(), g.strMem())
+		// string equality is content equality. Strings are immutable, so the content is a function of
+		// the string value: strkey(v) stands for it (equal values => equal content; distinct constants
+		// have distinct contents; nothing is known about other pairs), and so do the lengths agree.
+		sm := types.NewMap(types.Typ[types.String], types.Typ[types.Bool])
+		return fmt.Sprintf("(= %s %s)", g.mapKey(a, sm), g.mapKey(b, sm))
 	}
 	return fmt.Sprintf("(= %s %s)", a, b)
 }
@@ -1130,7 +1162,7 @@ func (g *Gen) copySlice(s string, et types.Type) string {
 	arr := g.fresh("copyarr", inner)
 	i := "i"
 	g.assumeAlways(fmt.Sprintf("(forall ((%s %s)) (! (=> (and %s %s) (= (select %s %s) (select (select %s (base %s)) %s))) :pattern ((select %s %s))))",
-		i, g.idxSort(), g.le(g.idx(0), i, true), g.lt(i, "(len "+s+")", true), arr, i, h, s, g.addIdx("(off "+s+")", i), arr, i))
+		i, g.idxSort(), g.le(g.idx(0), i, true), g.lt(i, "(len "+s+")", true), arr, i, h, s, g.elemIdx("(off "+s+")", i), arr, i))
 	g.setComp(c, fmt.Sprintf("(store %s %s %s)", h, base, arr))
 	return r
 }
@@ -1365,7 +1397,7 @@ func (g *Gen) runFrame() {
 						fr.val[phi] = g.define("phi_"+phi.Comment, g.sortOf(phi.Type()), mergeIte(ins, vals))
 					}
 					if phi.Comment != "" {
-						fr.named[phi.Comment] = phi
+						fr.setNamed(phi.Comment, phi, phi.Block())
 					}
 					// closures through phis
 					for _, e := range phi.Edges {
@@ -1377,6 +1409,7 @@ func (g *Gen) runFrame() {
 			}
 		}
 		g.curR = fr.reach[b]
+		fr.curBlock = b
 		if k := li.ord[b]; k > 0 {
 			g.loopHead(b, k, li)
 		}
@@ -1451,7 +1484,7 @@ func (g *Gen) loopHead(b *ssa.BasicBlock, k int, li *loopInfo) {
 		}
 		fr.val[phi] = t
 		if phi.Comment != "" {
-			fr.named[phi.Comment] = phi
+			fr.setNamed(phi.Comment, phi, phi.Block())
 		}
 		// counters that start at a constant c and are only ever incremented by a positive constant
 		// (the index of a range loop: -1, +1 per iteration) stay >= c: a structural inductive fact
@@ -1470,6 +1503,17 @@ func (g *Gen) loopHead(b *ssa.BasicBlock, k int, li *loopInfo) {
 	// havoc heap components modified in the loop body
 	for _, n := range sortedBoolKeys(g.modifiedIn(li.body[b])) {
 		if s, ok := g.comps[n]; ok {
+			if refs, ok := g.lastPrecise[n]; ok && strings.HasPrefix(s, "(Array Int ") {
+				// every write to this component in the loop goes to an object fixed before the loop:
+				// only those objects' contents are unknown at the loop head
+				inner := s[len("(Array Int ") : len(s)-1]
+				h := g.heapGet(n)
+				for _, r := range refs {
+					h = fmt.Sprintf("(store %s %s %s)", h, r, g.fresh("hv_"+n+"@loop", inner))
+				}
+				g.cur[n] = g.define("H_"+n+"@loop", s, h)
+				continue
+			}
 			nv := g.fresh("H_"+n+"@loop", s)
 			g.pristine[nv] = true
 			g.cur[n] = nv
@@ -1560,11 +1604,21 @@ func (g *Gen) curEnv() *TEnv {
 	}
 	// source variables by name: current value (a reassigned parameter means its current value here;
 	// old(p) is its entry value). Clauses exported to callers (requires/ensures) use entry values.
-	for name, v := range fr.named {
+	for name := range fr.named {
+		// the latest definition whose block dominates the current block (a definition on another
+		// branch is not the variable's value here)
+		v := fr.lookupNamed(name)
+		if v == nil {
+			continue
+		}
 		if t, ok := fr.val[v]; ok {
 			env.vars[name] = tvT{t: t, gt: v.Type()}
+		} else if c, isConst := v.(*ssa.Const); isConst {
+			env.vars[name] = tvT{t: g.term(c), gt: v.Type()}
 		}
 	}
+	g.bindNamedAddrs(env)
+	g.bindRangeIndex(env)
 	env.old = fr.oldHeap
 	return env
 }
@@ -1597,6 +1651,16 @@ func (g *Gen) loopEnv(h, pred *ssa.BasicBlock) *TEnv {
 // components possibly modified by the blocks of a loop body
 func (g *Gen) modifiedIn(body map[*ssa.BasicBlock]bool) map[string]bool {
 	m := map[string]bool{}
+	precise := map[string][]string{} // component -> references written by stores whose object is loop-invariant
+	defer func() {
+		g.lastPrecise = map[string][]string{}
+		for c, refs := range precise {
+			if !m[c] {
+				g.lastPrecise[c] = refs
+				m[c] = true
+			}
+		}
+	}()
 	all := func(includeGhost bool) {
 		for n := range g.comps {
 			if strings.HasPrefix(n, "L_") {
@@ -1615,6 +1679,12 @@ func (g *Gen) modifiedIn(body map[*ssa.BasicBlock]bool) map[string]bool {
 			for _, in := range b.Instrs {
 				switch x := in.(type) {
 				case *ssa.Store:
+					if depth == 0 {
+						if comp, ref, ok := g.invariantStoreTarget(x.Addr, body); ok {
+							precise[comp] = append(precise[comp], ref)
+							continue
+						}
+					}
 					for _, n := range g.compsOfAddr(x.Addr) {
 						m[n] = true
 					}
@@ -1672,6 +1742,10 @@ func (g *Gen) modifiedIn(body map[*ssa.BasicBlock]bool) map[string]bool {
 	}
 	sort.Slice(blocks, func(i, j int) bool { return blocks[i].Index < blocks[j].Index })
 	visitFn(g.fr.fn, blocks, 0)
+	// ghost state updated by `ghost at` clauses: conservatively modified by every loop
+	for _, n := range g.ghostAtComps() {
+		m[n] = true
+	}
 	// local allocs stored in body
 	for _, b := range blocks {
 		for _, in := range b.Instrs {
